@@ -173,7 +173,8 @@ class SDFS(SubFS):
         """
         # The way DSiWare exports are encrypted makes it annoying to do crypto on the fly.
         # A different method would have to be used to support them.
-        if 'Nintendo DSiWare' in path:
+        # (the directory of that name right below the ID1 directory, not any path that merely contains the words)
+        if normpath(abspath(path)).split('/')[1] == 'Nintendo DSiWare':
             raise NotImplementedError('files under "Nintendo DSiWare" currently cannot be opened with this method')
 
         fh = super().openbin(path, mode, buffering, **options)
